@@ -204,3 +204,59 @@ V("C06", "no-extension-not-recorded", "F", "R4", PRJ, "                    self.
 V("C06", "strip-plus-strips-more", "F", "R1", R + "_util.py", '    if spdx_identifier.endswith("+"):\n        return spdx_identifier[:-1]', '    if spdx_identifier.endswith("+"):\n        return spdx_identifier[:-2]')
 V("C06", "register-everything", "F", "R2", PRJ, "            if (\n                _LICENSEREF_PATTERN.match(identifier)\n                and \"Unknown\" not in identifier\n            ):", "            if True:")
 V("C06", "inline-strip-plus", "S", "", RPT, "used_licenses = {\n            lic\n            for file_report in self.file_reports", "used_licenses = {\n            lic\n            for file_report in self.file_reports")
+
+# ----------------------------------------------------------------- C13
+LNT = R + "lint.py"
+V("C13", "lines-no-unused", "F", "R1", LNT,
+  "        # Unused licenses\n        for lic in sorted(report.unused_licenses):\n            lic_path = license_path(lic)\n            output.write(\n                _(\"{lic_path}: unused license\\n\").format(lic_path=lic_path)\n            )\n", "")
+V("C13", "plain-read-errors-inverted", "F", "R1", LNT, "        if report.read_errors:\n            output.write(\"# \" + _(\"READ ERRORS\")", "        if not report.read_errors:\n            output.write(\"# \" + _(\"READ ERRORS\")")
+V("C13", "plain-deprecated-wrong-attr", "F", "R1", LNT, "            for lic in sorted(report.deprecated_licenses):\n                output.write(f\"* {lic}\\n\")", "            for lic in sorted(report.unused_licenses):\n                output.write(f\"* {lic}\\n\")")
+V("C13", "json-missing-licensing-swapped", "F", "R1", RPT,
+  '                "missing_licensing_info": [\n                    str(file) for file in self.files_without_licenses\n                ],',
+  '                "missing_licensing_info": [\n                    str(file) for file in self.files_without_copyright\n                ],')
+V("C13", "counters-swapped", "F", "R2", RPT,
+  '            "files_with_copyright_info": number_of_files\n            - len(self.files_without_copyright),',
+  '            "files_with_copyright_info": number_of_files\n            - len(self.files_without_licenses),')
+V("C13", "subset-verdict-ignores-read-errors", "F", "R3", RPT,
+  "                self.files_without_licenses,\n                self.read_errors,\n            )\n        )\n\n\nclass FileReport",
+  "                self.files_without_licenses,\n            )\n        )\n\n\nclass FileReport")
+V("C13", "lint-file-exit-0", "F", "R4", R + "cli/lint_file.py", "    sys.exit(0 if report.is_compliant else 1)", "    sys.exit(0)")
+V("C13", "subset-lines-drop-no-copyright", "F", "R3", LNT,
+  "    # Without copyright\n    for path in report.files_without_copyright:\n        output.write(_(\"{path}: no copyright notice\\n\").format(path=path))\n", "")
+V("C13", "lines-subset-only-when-quiet-flag", "F", "R1", LNT, "        subset_output = format_lines_subset(report)\n\n    return", "        subset_output = \"\"\n\n    return")
+V("C13", "json-compliant-constant", "F", "R2", RPT, '            "compliant": self.is_compliant,', '            "compliant": not self.read_errors,')
+V("C13", "subset-missing-licenses-dropped", "F", "R3c", RPT,
+  "            for missing_license in file_report.missing_licenses:\n                subset_report.missing_licenses.setdefault(\n                    missing_license, set()\n                ).add(file_report.path)\n", "")
+V("C13", "reorder-plain-sections", "S", "", LNT, "        # Deprecated licenses\n        if report.deprecated_licenses:", "        # Deprecated licenses (moved)\n        if report.deprecated_licenses:")
+
+# ----------------------------------------------------------------- C18
+V("C18", "sections-unsorted-list", "F", "R1", RPT, "        for report in reports:\n            out.write(\"\\n\")\n            out.write(f\"FileName:", "        for report in self.file_reports:\n            out.write(\"\\n\")\n            out.write(f\"FileName:")
+V("C18", "no-checksum-tag", "F", "R1", RPT, '            out.write(f"FileChecksum: SHA1: {report.chk_sum}\\n")\n', "")
+V("C18", "md5-checksum", "F", "R2", R + "_util.py", "from hashlib import sha1", "from hashlib import md5 as sha1")
+V("C18", "spdx-random-checksums", "F", "R2", R + "cli/spdx.py", "        obj.project,\n        multiprocessing=not obj.no_multiprocessing,\n        add_license_concluded", "        obj.project,\n        do_checksum=False,\n        multiprocessing=not obj.no_multiprocessing,\n        add_license_concluded")
+V("C18", "concluded-or", "F", "R3", RPT, '                    " AND ".join(', '                    " OR ".join(')
+V("C18", "concluded-no-parens", "F", "R3", RPT, '                        f"({expression})"\n', '                        f"{expression}"\n')
+V("C18", "first-chunk-only", "F", "R2", R + "_util.py", "        for chunk in iter(lambda: fp.read(128 * file_sha1.block_size), b\"\"):\n            file_sha1.update(chunk)", "        file_sha1.update(fp.read(128 * file_sha1.block_size))")
+V("C18", "relationship-uses-name", "F", "R1", RPT, '                f" {report.spdx_id}\\n"\n            )\n\n        for report in reports:', '                f" {report.name}\\n"\n            )\n\n        for report in reports:')
+V("C18", "copyright-without-text-wrapper", "F", "R1", RPT, '"FileCopyrightText:" f" <text>{report.copyright}</text>\\n"', '"FileCopyrightText:" f" {report.copyright}\\n"')
+V("C18", "no-licenseref-section", "F", "R1", RPT, "            if _LICENSEREF_PATTERN.match(lic):\n                out.write(\"\\n\")", "            if False:\n                out.write(\"\\n\")")
+V("C18", "creator-not-required", "F", "R3", R + "cli/spdx.py", "        add_license_concluded\n        and creator_person is None\n        and creator_organization is None", "        add_license_concluded\n        and creator_person is None\n        and creator_organization is None\n        and False")
+
+# ----------------------------------------------------------------- C19
+DLP = R + "download.py"
+DLC = R + "cli/download.py"
+V("C19", "exists-check-after-write", "F", "R1", DLP,
+  "    if destination.exists():\n        raise FileExistsError(\n            errno.EEXIST, os.strerror(errno.EEXIST), str(destination)\n        )\n\n    # LicenseRef- license; don't download anything.",
+  "    # LicenseRef- license; don't download anything.")
+V("C19", "open-before-download", "F", "R1", DLP,
+  "        text = download_license(spdx_identifier)\n        with destination.open(\"w\", encoding=\"utf-8\") as fp:\n            fp.write(header)\n            fp.write(text)",
+  "        with destination.open(\"w\", encoding=\"utf-8\") as fp:\n            text = download_license(spdx_identifier)\n            fp.write(header)\n            fp.write(text)")
+V("C19", "licenseref-downloads", "F", "R1", DLP, "        else:\n            destination.touch()\n", "        else:\n            destination.write_text(download_license(spdx_identifier))\n")
+V("C19", "break-on-failure", "F", "R2", DLC, "        except URLError:\n            _could_not_download(lic)\n            return_code = 1\n", "        except URLError:\n            _could_not_download(lic)\n            return_code = 1\n            break\n")
+V("C19", "failure-exit-0", "F", "R2", DLC, "        except FileExistsError as err:\n            _already_exists(err.filename)\n            return_code = 1\n", "        except FileExistsError as err:\n            _already_exists(err.filename)\n")
+V("C19", "plus-not-stripped", "F", "R2", DLC, "    licenses = {_strip_plus_from_identifier(lic) for lic in licenses}\n", "    licenses = set(licenses)\n")
+V("C19", "exit-0-always", "F", "R2", DLC, "    sys.exit(return_code)", "    sys.exit(0)")
+V("C19", "status-ignored", "F", "R1", DLP, "        if response.getcode() == 200:\n            return response.read().decode(\"utf-8\")\n    raise URLError(\"Status code was not 200\")", "        return response.read().decode(\"utf-8\")")
+V("C19", "all-takes-unused", "F", "R2", DLC, "        licenses = report.missing_licenses.keys()", "        licenses = report.unused_licenses")
+V("C19", "destination-without-txt", "F", "R2", DLP, '    return licenses_path / "".join((spdx_identifier, ".txt"))', '    return licenses_path / spdx_identifier')
+V("C19", "second-network-caller", "F", "R1", R + "_util.py", "def cleandoc_nl(text: str) -> str:", "def _ping() -> None:\n    import urllib.request\n    urllib.request.urlopen('https://spdx.org')\n\n\ndef cleandoc_nl(text: str) -> str:")
